@@ -1,2 +1,2 @@
--- stub: replaced by the real driver for model Serial (imports Pyrtma.Drv.Serial)
-def main : IO Unit := pure ()
+import Pyrtma.Drv.Serial
+def main : IO Unit := Pyrtma.Drv.Serial.main
